@@ -121,6 +121,12 @@ def shard(i, n, args):
                     if key in tree[2]:
                         pt = next(p["type"] for p in root.t["value"]["properties"] if p["name"] == key)
                         edit_sites(mm, tree[2][key], pt, [key], sites, r)
+            big = ("long130" in lab) or lab in ("wide", "deep40")
+            cap = 6 if big else 80
+            if len(sites) > cap:
+                # the cost of one judged edit is a full parse of the value: a seeded sample of the sites
+                # (large values - 130-element arrays, 40-level recursion - get a handful each)
+                sites = [sites[x] for x in sorted(r.sample(range(len(sites)), cap))]
             for path, kind, v in sites:
                 res["edits"] += 1
                 jp = apply_edit(j, path, kind, v)
